@@ -223,6 +223,12 @@ pub struct PtSpec {
     pub status_seed: u64,
     /// Include card/AID/VU detail fields in status informations.
     pub rich_status: bool,
+    /// The terminal stays silent on every connection with this index or higher
+    /// (stalls at emission point `dead_point`), for ever.
+    #[serde(default)]
+    pub dead_from_conn: Option<u16>,
+    #[serde(default)]
+    pub dead_point: u16,
 }
 
 // ---------------------------------------------------------------- state
@@ -266,6 +272,10 @@ pub struct ReqLog {
     /// Did the exchange end with a completion?
     pub completed: Option<bool>,
     pub dangling_reported: Option<u16>,
+    /// Result code of the abort packet that ended this exchange (as scripted).
+    pub abort_sent: Option<u8>,
+    /// 06 50 only: dangling pre-authorisations still open in the ledger when it arrived.
+    pub open_dangling_at_arrival: Vec<u16>,
 }
 
 #[derive(Clone, Debug)]
@@ -313,6 +323,10 @@ pub struct PtShared {
     pub identity_sent: Vec<(u16, String, usize)>,
     pub duplicate_reservations: u64,
     pub last_card: Option<CardOutcome>,
+    /// Outcomes already chosen in the current public call, so that a repeated command (after a
+    /// transport fault) meets the same terminal decision: keyed by control field + receipt/token.
+    pub sticky_res: Vec<(Vec<u8>, ResOutcome)>,
+    pub sticky_rev: Vec<((u8, u8), u16, RevOutcome)>,
 }
 
 impl PtShared {
@@ -339,6 +353,8 @@ impl PtShared {
             identity_sent: vec![],
             duplicate_reservations: 0,
             last_card: None,
+            sticky_res: vec![],
+            sticky_rev: vec![],
         }
     }
 
@@ -454,11 +470,16 @@ impl PtConn {
         self.point += 1;
         let point = self.point;
         let mut pt = self.pt.lock().unwrap();
-        let fault = pt
+        let mut fault = pt
             .faults
             .iter()
             .find(|f| f.conn == self.conn && f.point == point)
             .map(|f| f.kind);
+        if let Some(n) = pt.spec.dead_from_conn {
+            if self.conn >= n && point == pt.spec.dead_point.max(1) {
+                fault = Some(FaultKind::Silence);
+            }
+        }
         let mut delay = e.delay_ms;
         let dp = pt.delay_pct;
         if dp > 0 && pt.drng.pct(dp) {
@@ -771,13 +792,20 @@ impl PtConn {
                 }
             }
             (0x06, 0x22) => {
-                let o = pt.q.reservation.pop_front().unwrap_or_else(ResOutcome::success);
                 let amount = pkt.get_bcd(0x04).unwrap_or(0);
                 let currency = pkt.get_bcd(0x49).unwrap_or(0);
                 let token = pkt
                     .tlvs()
                     .and_then(|t| rc::find_path(&t, &[0xe9, 0x1f63]).and_then(|x| x.prim_val().map(|v| v.to_vec())))
                     .unwrap_or_default();
+                let o = match pt.sticky_res.iter().find(|(t, _)| *t == token) {
+                    Some((_, o)) => o.clone(),
+                    None => {
+                        let o = pt.q.reservation.pop_front().unwrap_or_else(ResOutcome::success);
+                        pt.sticky_res.push((token.clone(), o.clone()));
+                        o
+                    }
+                };
                 pre(&mut out, o.pre);
                 let mut receipt = None;
                 let with = matches!(
@@ -824,7 +852,14 @@ impl PtConn {
                     // pending query (2.10.1): answered with an abort packet
                     let (p, n) = pt.q.pending.pop_front().unwrap_or((PendingSpec::NoneFfff, 0));
                     pre(&mut out, n);
+                    let still_open = pt.ledger.values().find(|l| l.dangling && l.state == EntryState::Open).map(|l| l.receipt);
                     let extra = match p {
+                        _ if still_open.is_some() => {
+                            // reported before (or booked for a reply that never got through) and never reversed
+                            let r = still_open.unwrap();
+                            pt.requests[req].dangling_reported = Some(r);
+                            rc::AbortExtra::Receipt(r)
+                        }
                         PendingSpec::NoneFfff => rc::AbortExtra::NoneMarker,
                         PendingSpec::NoBmp => rc::AbortExtra::None,
                         PendingSpec::Dangling => {
@@ -849,16 +884,30 @@ impl PtConn {
                     out.push(plain(rc::abort(0xb8, extra)));
                     completes = true;
                 } else {
-                    let o = pt.q.partial_reversal.pop_front().unwrap_or_else(RevOutcome::success);
                     let receipt = pkt.get_bcd(0x87).unwrap_or(0) as u16;
+                    let o = match pt.sticky_rev.iter().find(|(cf, r, _)| *cf == (0x06, 0x23) && *r == receipt) {
+                        Some((_, _, o)) => o.clone(),
+                        None => {
+                            let o = pt.q.partial_reversal.pop_front().unwrap_or_else(RevOutcome::success);
+                            pt.sticky_rev.push(((0x06, 0x23), receipt, o.clone()));
+                            o
+                        }
+                    };
                     let release = pkt.get_bcd(0x04).unwrap_or(0);
                     let known = pt.ledger.get(&receipt).map(|l| l.state == EntryState::Open).unwrap_or(false);
                     pre(&mut out, o.pre);
                     if !known {
-                        // no such open pre-authorisation: the terminal refuses
-                        out.push(plain(rc::abort(0xb8, rc::AbortExtra::None)));
+                        // no such open pre-authorisation: the terminal refuses (B4 = already reversed)
+                        let code = if pt.ledger.contains_key(&receipt) { 0xb4 } else { 0xb8 };
+                        out.push(plain(rc::abort(code, rc::AbortExtra::None)));
                     } else {
                         let l = pt.ledger.get(&receipt).unwrap().clone();
+                        if o.status && o.pre % 2 == 1 {
+                            // a preliminary status information with other values in front:
+                            // the summary must reproduce the last one the terminal reported
+                            let s0 = pt.status(l.amount, l.currency, None);
+                            out.insert(1, plain(rc::status_info(&s0)));
+                        }
                         if o.status {
                             let s = pt.status(l.amount.saturating_sub(release), l.currency, Some(receipt));
                             out.push(plain(rc::status_info(&s)));
@@ -870,12 +919,20 @@ impl PtConn {
                 }
             }
             (0x06, 0x25) => {
-                let o = pt.q.preauth_reversal.pop_front().unwrap_or_else(RevOutcome::success);
                 let receipt = pkt.get_bcd(0x87).unwrap_or(0) as u16;
+                let o = match pt.sticky_rev.iter().find(|(cf, r, _)| *cf == (0x06, 0x25) && *r == receipt) {
+                    Some((_, _, o)) => o.clone(),
+                    None => {
+                        let o = pt.q.preauth_reversal.pop_front().unwrap_or_else(RevOutcome::success);
+                        pt.sticky_rev.push(((0x06, 0x25), receipt, o.clone()));
+                        o
+                    }
+                };
                 let known = pt.ledger.get(&receipt).map(|l| l.state == EntryState::Open).unwrap_or(false);
                 pre(&mut out, o.pre);
                 if !known {
-                    out.push(plain(rc::abort(0xb8, rc::AbortExtra::None)));
+                    let code = if pt.ledger.contains_key(&receipt) { 0xb4 } else { 0xb8 };
+                    out.push(plain(rc::abort(code, rc::AbortExtra::None)));
                 } else {
                     if o.status {
                         let s = pt.status(0, 978, Some(receipt));
@@ -890,6 +947,19 @@ impl PtConn {
                 out = vec![plain(rc::nack(0x83))];
                 completes = false;
             }
+        }
+        if let Some(last) = out.last() {
+            if last.frame.len() >= 4 && (last.frame[0], last.frame[1]) == (0x06, 0x1e) {
+                pt.requests[req].abort_sent = Some(last.frame[3]);
+            }
+        }
+        if pkt.cf == (0x06, 0x50) {
+            pt.requests[req].open_dangling_at_arrival = pt
+                .ledger
+                .values()
+                .filter(|l| l.dangling && l.state == EntryState::Open)
+                .map(|l| l.receipt)
+                .collect();
         }
         (out, completes)
     }
@@ -972,6 +1042,8 @@ impl Terminal for PtConn {
                     status_sent: None,
                     completed: None,
                     dangling_reported: None,
+                    abort_sent: None,
+                    open_dangling_at_arrival: vec![],
                 });
                 let msg = format!("frame {} on a connection after its failure", crate::conn::hex(&frame));
                 pt.anomalies.push((seq, self.conn, msg));
@@ -1030,6 +1102,8 @@ impl Terminal for PtConn {
                     status_sent: None,
                     completed: None,
                     dangling_reported: None,
+                    abort_sent: None,
+                    open_dangling_at_arrival: vec![],
                 });
                 pt.requests.len() - 1
             };
